@@ -440,6 +440,13 @@ pub fn check_outcome(o: &Outcome, ovh: usize, vsz: usize) -> Vec<Fail> {
             fail(&mut v, ex.ret_prop, format!("{} returned {} where {} is due", op.text(), o.ret.text(), r.text()));
         }
     }
+    // C15: len and current_size reflect the removals of `retain`
+    if let (OpKind::RetainIdx(_) | OpKind::RetainIds(_), Some(post)) = (op, &o.post) {
+        let want: u128 = ex.ord.iter().map(|e| e.esize as u128).sum();
+        if post.cur as u128 != want || post.len != ex.ord.len() {
+            fail(&mut v, "C15", format!("after {} len/current_size are {}/{} where {}/{} (the kept entries) are due", op.text(), post.len, post.cur, ex.ord.len(), want));
+        }
+    }
     // C20: hashing bound
     let deps = ex.departed.len() as u64;
     // only the operations the property names may rebuild the table (and then hash each held entry once):
